@@ -94,24 +94,11 @@ pub fn into_iter_case<const N: usize, P: Pad>(
             if it.len() != rem || it.size_hint() != (rem, Some(rem)) {
                 bad.push(("C08", "wrong_len", format!("step {}: len()={} size_hint={:?} expected {}", i, it.len(), it.size_hint(), rem)));
             }
-            let x = match s {
-                Step::F => it.next(),
-                Step::B => it.next_back(),
-            };
-            let want = if lo < hi {
-                Some(match s {
-                    Step::F => {
-                        lo += 1;
-                        model[lo - 1].0
-                    }
-                    Step::B => {
-                        hi -= 1;
-                        model[hi].0
-                    }
-                })
-            } else {
-                None
-            };
+            let x = apply_step(&mut it, *s);
+            let mut w = Win { lo, hi };
+            let want = w.step(*s).map(|p| model[p].0);
+            lo = w.lo;
+            hi = w.hi;
             let got = x.as_ref().map(|t| t.peek("into_iter.yield").0);
             if got != want {
                 bad.push(("C08", "wrong_item", format!("step {} {:?}: yielded {:?} expected {:?}", i, s, got, want)));
@@ -144,12 +131,10 @@ pub fn into_iter_case<const N: usize, P: Pad>(
             // (taken before step clone_at; reconstruct the window at that time)
             let (mut clo, mut chi) = (0usize, model.len());
             for s in script.iter().take(clone_at.unwrap()) {
-                if clo < chi {
-                    match s {
-                        Step::F => clo += 1,
-                        Step::B => chi -= 1,
-                    }
-                }
+                let mut w = Win { lo: clo, hi: chi };
+                w.step(*s);
+                clo = w.lo;
+                chi = w.hi;
             }
             let got: Vec<TokG<P>> = c.collect();
             let ok = got.len() == chi - clo
